@@ -393,8 +393,10 @@ class Engine:
 
 
 def explore(fn, base=(), timeout_ms=20000, fixed_prefix=(), frontier_depth=None,
-            sliced=False, max_paths=None, on_abort=None):
-    """Run fn(engine) once per feasible path.  Returns (results, stats, engine)."""
+            sliced=False, max_paths=None, on_abort=None, budget=None):
+    """Run fn(engine) once per feasible path.  Returns (results, stats, engine).
+    budget: after that many paths the exploration stops and hands the unexplored alternatives back as
+    decision prefixes in engine.frontier (dynamic load balancing: the driver re-queues them)."""
     eng = Engine(base, timeout_ms, fixed_prefix, frontier_depth, sliced)
     prev = Engine.cur
     Engine.cur = eng
@@ -427,6 +429,14 @@ def explore(fn, base=(), timeout_ms=20000, fixed_prefix=(), frontier_depth=None,
             st["paths"] += 1
             if max_paths and st["paths"] >= max_paths:
                 st["truncated"] = True
+                break
+            if budget and st["paths"] >= budget:
+                # hand back every pending alternative: prefix up to entry i, then the alternative
+                ds = [e["d"] for e in eng.trace]
+                for i in range(eng.fixed, len(eng.trace)):
+                    for alt in eng.trace[i]["alts"]:
+                        eng.frontier.append(ds[:i] + [alt])
+                st["handed_back"] = True
                 break
             if not eng.next_path():
                 break
